@@ -66,6 +66,9 @@ type Reply struct {
 	Hold    chan struct{} // if non-nil the handler waits for it (or for the request context) before answering
 	Stream  bool          // stream chunks every StreamEvery until Hold is closed or the context dies
 	Every   time.Duration
+	// Steps (with Stream): status and headers are written and flushed at once; then every value received from Steps
+	// is written as one flushed chunk (the harness decides when the upstream sends what); closing Hold ends the stream
+	Steps chan []byte
 	Reset   bool          // hijack and close the connection after writing headers + half the body
 	Upgrade string        // non-empty: an upgrade request is answered 101 with this protocol; Body is sent first, then every byte received is echoed XOR 0x5a
 	started chan struct{} // closed when the handler has started
@@ -302,6 +305,30 @@ func (u *Upstream) serve(w http.ResponseWriter, r *http.Request) {
 	status := rep.Status
 	if status == 0 {
 		status = 200
+	}
+	if rep.Stream && rep.Steps != nil {
+		w.WriteHeader(status)
+		fl, _ := w.(http.Flusher)
+		if fl != nil {
+			fl.Flush()
+		}
+		for {
+			select {
+			case b := <-rep.Steps:
+				if _, err := w.Write(b); err != nil {
+					markDone()
+					return
+				}
+				if fl != nil {
+					fl.Flush()
+				}
+			case <-rep.Hold:
+				return
+			case <-r.Context().Done():
+				markDone()
+				return
+			}
+		}
 	}
 	if rep.Stream {
 		w.WriteHeader(status)
